@@ -29,7 +29,7 @@ package edge
 //@ func (PointMessage).ShallowCopy
 //@   trusted
 //@   modifies nothing
-//@   ensures result != nil
+//@   ensures result != nil && result != recv && !gfi(result, mutated, bool)
 
 // Message constructors: assumed (trusted) to allocate and not touch existing modelled memory.
 //@ func NewBatchPointMessage
@@ -92,3 +92,29 @@ package edge
 //@   props C06
 //@   requires gcOK(c) && b != nil
 //@   guardcall Barrier#1: has(c.groups, b.GroupInfo().ID) && r == c.groups[b.GroupInfo().ID]
+
+// ---------------------------------------------------------------- message mutation (C10)
+// "A node never alters data it received": every setter marks the message it is applied to as
+// mutated (a specification-only flag on the message value); ShallowCopy yields a different
+// message. A node method that must leave its input alone proves that the flag of the received
+// message does not change.
+//@ func (TimeSetter).SetTime
+//@   trusted
+//@   modifies gfi(recv, mutated, bool)
+//@   ensures gfi(recv, mutated, bool)
+//@ func (FieldSetter).SetFields
+//@   trusted
+//@   modifies gfi(recv, mutated, bool)
+//@   ensures gfi(recv, mutated, bool)
+//@ func (TagSetter).SetTags
+//@   trusted
+//@   modifies gfi(recv, mutated, bool)
+//@   ensures gfi(recv, mutated, bool)
+//@ func (BatchPointMessage).ShallowCopy
+//@   trusted
+//@   modifies nothing
+//@   ensures result != nil && result != recv && !gfi(result, mutated, bool)
+//@ func (BeginBatchMessage).ShallowCopy
+//@   trusted
+//@   modifies nothing
+//@   ensures result != nil && result != recv && !gfi(result, mutated, bool)
